@@ -103,6 +103,13 @@ CHECKS.update({
    note="No synctest bubble: a virtual clock implementation drives the registry deterministically; invoice expiry watcher and HTLC interceptor outside the universe; sqlite only; two genuine findings repaired in /repo (fix: 0e60830, a97d82f).", ref="§4 C15"),
 })
 
+CHECKS.update({
+ "C20": dict(cat="model_checking", engine="seqmc+synctest (in-package discovery)",
+   technique="explicit-state BFS over gossip message alphabets (seqmc) against a reference acceptance model written from the property statement and BOLT 7, plus exhaustive single-byte and single-field corruption enumeration, on the real started AuthenticatedGossiper + graph.Builder + KV/SQL graph store inside testing/synctest bubbles (virtual time)",
+   text="All message sequences up to depth 5 (quick) / 6 (thorough) over valid messages, corrupted twins, future-block channels and bursts, with canonical-state de-duplication, and every byte x {0x01,0x80,0xff} plus 111 single-field semantic corruptions in five graph contexts are delivered through ProcessRemoteAnnouncement; the graph may change only as the model predicts and every broadcast must be byte-equal to an accepted message.",
+   note="Gossip v1 only; fixed key material; zombie marking after a failed funding check is not counted as a graph change; the completeness half (valid message applied unless a documented defence drops it) is stronger than the property and reported under its own signature; store batch interval 0 instead of 500 ms (a mutex held across the virtual timer wait freezes a bubble).", ref="§4 C20"),
+})
+
 NOT_YET = "harness not built yet in this round (planned, see DESIGN.md §4)"
 
 def main():
